@@ -1,6 +1,7 @@
 package rules
 
 import (
+	"go/token"
 	"sort"
 	"strings"
 
@@ -22,11 +23,13 @@ func c07(c *Ctx) {
 	r.Decides("a device is handed out only if it has non-zero resources and request <= free; allocation fails exactly when fewer than the desired number were found; the topology-aware GPU allocator requires request <= free and membership in the filtered device totals")
 	r.Decides("the node device ledgers are accessed only under nodeDevice.lock")
 	r.Decides("a pod delete that arrives as a tombstone (by value) reaches deletePod like a plain delete; no assertion to the pointer tombstone type")
+	r.Decides("the candidate view used for allocation (calcFreeWithPreemptible, filter) writes nothing into the shared ledgers; a preemption credit can raise a device's free amount at most to total - max(0, used - credit); with required (reserved) amounts the view contains only the required minors, each capped by min(free, required)")
 	r.Declines("the sums themselves and 'fails only if no feasible set exists' (combinatorial)")
 
 	c07typestate(c)
 	c07mirror(c)
 	c07alloc(c)
+	c07free(c)
 
 	r.Rule("LOCK(write side): every write of nodeDevice.{deviceTotal,deviceFree,deviceUsed,allocateSet,vfAllocations} happens under nodeDevice.lock held for writing or on an object just created by newNodeDevice (filter works on such a copy); helpers pass the requirement to their callers. Reads are not claimed: allocators reach the object through a struct field, which access-path locksets cannot relate to the lock taken by the plugin")
 	c.RunLock("LOCK", LockCfg{Pkg: devPkg, Type: "nodeDevice", Mutex: "lock", WriteOnly: true,
@@ -348,4 +351,92 @@ func c07alloc(c *Ctx) {
 		r.Check(le && member, "FLOW", fkey(fn)+"/satisfied", c.InstrPos(last), "satisfied = request<=free AND minor in filtered totals",
 			sprintf("the device test lost a conjunct: request<=free=%v, membership in deviceTotal=%v (an idle unhealthy GPU has an empty free list and passes LessThanOrEqual vacuously)", le, member))
 	}
+}
+
+// c07free: the candidate view is a pure, bounded function of the ledgers.
+func c07free(c *Ctx) {
+	r := c.R
+	r.Rule("EFFECT+FLOW(candidate view): nodeDevice.calcFreeWithPreemptible and nodeDevice.filter write nothing reachable from the receiver; every entry stored into the merged free map is SubtractWithNonNegativeResult(deviceTotal[minor], SubtractWithNonNegativeResult(deviceUsed[minor], preemptible[minor])) or a DeepCopy of deviceFree[minor]; with required amounts every returned entry is MinResourceList(free, required[minor]) for a minor found in the required map")
+	for _, name := range []string{"calcFreeWithPreemptible", "filter"} {
+		fn := c.Fn(devPkg, "nodeDevice", name)
+		if fn == nil {
+			continue
+		}
+		es := an.DeepEffects(fn, an.Receiver(fn), nil, 2)
+		r.Check(len(es) == 0, "EFFECT", fkey(fn)+"/no-shared-write", c.Pos(fn.Pos()), "no write into the shared ledgers", name+" writes state reachable from the shared nodeDevice ("+strings.Join(effStrings(es), "; ")+"): a dry run (Filter, preemption simulation) would change the real ledgers")
+	}
+	fn := c.Fn(devPkg, "nodeDevice", "calcFreeWithPreemptible")
+	if fn == nil {
+		return
+	}
+	key := fkey(fn)
+	isSub := func(v ssa.Value) *ssa.Call {
+		call, ok := v.(*ssa.Call)
+		if ok && an.ShortCallee(&call.Call) == "SubtractWithNonNegativeResult" {
+			return call
+		}
+		return nil
+	}
+	nCredit, nCopy, nMin := 0, 0, 0
+	var bad []string
+	for _, b := range fn.Blocks {
+		for _, in := range b.Instrs {
+			mu, ok := in.(*ssa.MapUpdate)
+			if !ok {
+				continue
+			}
+			v := mu.Value
+			if outer := isSub(v); outer != nil {
+				inner := isSub(outer.Call.Args[1])
+				if strings.Contains(an.Path(outer.Call.Args[0]), ".deviceTotal[") && inner != nil && strings.Contains(an.Path(inner.Call.Args[0]), ".deviceUsed[") {
+					nCredit++
+					continue
+				}
+				bad = append(bad, c.InstrPos(mu)+": "+an.Path(v))
+				continue
+			}
+			if call, ok := v.(*ssa.Call); ok {
+				switch an.ShortCallee(&call.Call) {
+				case "DeepCopy":
+					nCopy++
+					continue
+				case "MinResourceList":
+					// second operand: the required amount looked up with comma-ok true
+					okReq := false
+					for _, g := range an.Guards(mu) {
+						if isCommaOk(g.Cond) && g.Truth {
+							okReq = true
+						}
+					}
+					if okReq {
+						nMin++
+						continue
+					}
+				}
+			}
+			bad = append(bad, c.InstrPos(mu)+": "+an.Path(v))
+		}
+	}
+	r.Check(len(bad) == 0 && nCredit == 1 && nCopy >= 1 && nMin == 1, "FLOW", key+"/bounded-entries", c.Pos(fn.Pos()), "credit bounded by total, copies of free, required cap", sprintf("an entry of the candidate free view is not one of the three bounded forms (credit forms: %d, copies: %d, required caps: %d; other: %s)", nCredit, nCopy, nMin, strings.Join(bad, "; ")))
+	// with required amounts, only the capped map is returned
+	f := an.Facts{}
+	for _, b := range fn.Blocks {
+		for _, in := range b.Instrs {
+			if bo, ok := in.(*ssa.BinOp); ok && bo.Op == token.GTR {
+				if call, ok := bo.X.(*ssa.Call); ok && an.IsBuiltinCall(call, "len") && strings.Contains(an.Path(call.Call.Args[0]), "requiredDeviceResources") {
+					f[bo] = an.True
+				}
+			}
+		}
+	}
+	reach := an.Explore(fn, nil, f, nil)
+	okRet := len(f) == 1
+	for _, ret := range reach.Returns() {
+		if !strings.Contains(an.Path(ret.Results[0]), "requiredDeviceFree") {
+			if _, isMk := ret.Results[0].(*ssa.MakeMap); !isMk {
+				okRet = false
+			}
+		}
+	}
+	r.Check(okRet, "PATH", key+"/required=>capped-view", c.Pos(fn.Pos()), "with required amounts only the capped view is returned", "with required (reserved) device amounts the uncapped free view can be returned: a pod allocating from a reservation could take more than the reservation holds")
 }
